@@ -184,7 +184,7 @@ func (p *parser) BasicParser(urlOrRef string, baseUrl *Url, url *Url, stateOverr
 						return url, nil
 					}
 					// If url’s scheme is "file" and its host is an empty host or null, then return.
-					if url.scheme == "file" && *url.host == "" {
+					if url.scheme == "file" && url.host != nil && *url.host == "" {
 						return url, nil
 					}
 				}
